@@ -31,7 +31,7 @@ def props_of_obligation(contract, oname):
     return contract.props
 
 
-def lemma_formula(eng, reg, lm, env_override=None):
+def lemma_formula(eng, reg, lm, env_override=None, for_use=False):
     """the lemma statement as a closed, universally quantified formula"""
     st = sx.State()
     vs = []
@@ -49,7 +49,18 @@ def lemma_formula(eng, reg, lm, env_override=None):
     if env_override:
         st.env.update(env_override)
     hyps = [sx.to_bool(eng.evc(src, st)) for src in lm.requires.values()]
+    ivars, irng = [], []
+    for iv, (lo, hi) in lm.intro.items():
+        x = z3.Int("lm!%s!%s" % (lm.name, iv))
+        st.env[iv] = x
+        ivars.append(x)
+        irng.append(z3.And(sx.to_z3(eng.evc(lo, st)) <= x, x < sx.to_z3(eng.evc(hi, st))))
     body = sx.to_bool(eng.evc(lm.statement, st))
+    if ivars:
+        if for_use:
+            body = z3.ForAll(ivars, z3.Implies(z3.And(*irng), body))
+        else:       # proof: an arbitrary value in the range
+            hyps = hyps + irng
     return vs, st, hyps, body
 
 
@@ -112,7 +123,7 @@ def _dummy_fn():
 def lemma_as_axiom(reg, name):
     lm = reg.lemmas[name]
     eng = sx.Engine("lemma::" + lm.name, _dummy_fn(), {}, None, reg, reg.specs)
-    vs, st, hyps, body = lemma_formula(eng, reg, lm)
+    vs, st, hyps, body = lemma_formula(eng, reg, lm, for_use=True)
     if lm.induction is not None:        # proved for induction variable >= base only
         hyps = hyps + [st.env[lm.induction] >= sx.to_z3(eng.evc(lm.base, st))]
     return z3.ForAll(vs, z3.Implies(z3.And(*hyps + [z3.BoolVal(True)]), body))
